@@ -20,6 +20,7 @@ type PubSpec struct {
 	Stay   bool // do not detach by itself
 	Pre    bool // attach in the main task before the concurrent phase starts
 	Linger bool // before detaching, wait until nothing else can run (lets the readers attach first)
+	Incompatible bool // publishes tracks the (always-available) path refuses
 }
 
 // RdrSpec scripts one reader task: attach (Twice: call AddReader twice), wait to be closed or detach.
@@ -84,7 +85,13 @@ func PubReadBodyOpt(c *conf.Conf, pubs []PubSpec, rdrs []RdrSpec, hooks bool, au
 				if !ps.Pre {
 					pub = &Pub{ID: ps.ID}
 					var err error
-					res, err = pm.Publish(pub, "p", desc)
+					d := desc
+					if ps.Incompatible {
+						Audio = !audio
+						d, _, _ = NewDesc()
+						Audio = audio
+					}
+					res, err = pm.Publish(pub, "p", d)
 					if err != nil {
 						return
 					}
@@ -226,6 +233,7 @@ func CheckPublishersOpt(override bool, sameStream bool) func(o *vsched.Outcome) 
 		readingAt := map[string]int{}
 		beginAt := map[string]int{}
 		gotFrom := map[string]string{}
+		closedAt := map[string]int{}
 		for i, l := range o.Trace {
 			w := strings.Fields(l)
 			switch w[0] {
@@ -251,6 +259,9 @@ func CheckPublishersOpt(override bool, sameStream bool) func(o *vsched.Outcome) 
 					replacedAt[w[1]] = i
 				}
 			case "close":
+				if _, ok := closedAt[w[1]]; !ok {
+					closedAt[w[1]] = i
+				}
 				if cur == w[1] {
 					if !override && idx(o.Trace[:i], "settled", 0) < 0 && !strings.HasPrefix(o.Trace[0], "settled") && !settledBefore(o.Trace, i) {
 						return "kicked-without-override", fmt.Sprintf("publisher %s was closed by the path while attached although overridePublisher is off | %s", cur, tr)
@@ -266,6 +277,9 @@ func CheckPublishersOpt(override bool, sameStream bool) func(o *vsched.Outcome) 
 				x := u[:1]
 				if prev, ok := gotFrom[r]; ok && prev != x && !sameStream {
 					return "mixed-publishers", fmt.Sprintf("reader %s received units of two publishers on one stream | %s", r, tr)
+				}
+				if ca, ok := closedAt[x]; ok && sameStream && beginAt[u] > ca && !settledBefore(o.Trace, ca) {
+					return "closed-publisher-data", fmt.Sprintf("unit %s was written after publisher %s had been closed by the path (replacement attempt) and still reached reader %s | %s", u, x, r, tr)
 				}
 				if sameStream {
 					// one stream, pushes serialised by its lock: after a unit of the replacing publisher, nothing of the replaced one
@@ -336,4 +350,62 @@ func keys(m map[string]bool) []string {
 		out = append(out, k)
 	}
 	return out
+}
+
+// AlwaysTeardownBody: an always-available path that is offline (no publisher) with a reader attached is recreated
+// by a reload that changes a non hot-reloadable field: the reader must be detached and closed.
+func AlwaysTeardownBody(c, cNext *conf.Conf) func() {
+	return func() {
+		Audio = true
+		Live = nil
+		pm := New(c, AllowAll{}, false)
+		Live = pm
+		_, m, f := NewDesc()
+		r := &Rdr{ID: "R"}
+		closed := make(chan struct{})
+		r.OnClose = func() { vsched.Close(closed) }
+		res, sr, err := pm.Read(r, "p", m, f)
+		if err != nil {
+			vsched.Log("end")
+			return
+		}
+		done := make(chan struct{})
+		vsched.Go(func() {
+			defer vsched.Close(done)
+			vsched.Recv(closed)
+			res.Stream.RemoveReader(sr)
+			vsched.Log("detaching R")
+			res.Path.RemoveReader(defs.PathRemoveReaderReq{Author: r})
+			vsched.Log("detached R")
+		})
+		vsched.WaitQuiet()
+		pm.ReloadPathConfs(cNext.Paths)
+		vsched.Log("reload sent")
+		vsched.WaitIdle()
+		vsched.Log("settled-after-recreate closedR=%v %s", r.Closed(), SnapString(pm))
+		pm.Close()
+		vsched.Log("closed")
+		vsched.Recv(done)
+		vsched.Log("end")
+	}
+}
+
+// CheckAlwaysTeardown: after the recreating reload has settled the old reader must have been closed.
+func CheckAlwaysTeardown(o *vsched.Outcome) (string, string) {
+	tr := strings.Join(o.Trace, ", ")
+	if strings.HasPrefix(o.Failure, "invariant") {
+		return "maxreaders-exceeded", o.Failure + " | " + tr
+	}
+	if o.Failure != "" {
+		return "sched-" + strings.SplitN(o.Failure, ":", 2)[0], o.Failure + " | " + tr
+	}
+	if len(o.Trace) == 0 || o.Trace[len(o.Trace)-1] != "end" {
+		return "incomplete", "scenario did not run to its end | " + tr
+	}
+	for _, l := range o.Trace {
+		if strings.HasPrefix(l, "settled-after-recreate closedR=false") {
+			return "reader-not-closed", "the path was recreated (its stream went away) but the attached reader was not closed | " + tr
+		}
+	}
+	return "", ""
 }
